@@ -69,12 +69,23 @@ def gen_case(g, stream):
     # how the data reaches the solver: one fit() call; partial_fit per sequence then fit(); the same with the
     # regularisation set to its final value only before fit(); or a second fit of a node fitted before on other
     # data with another lambda (accumulators and lambda must be those of the last fit)
-    c["mode"] = g.choice(["fit", "fit", "partial", "partial_ridge", "refit"])
-    if c["mode"] == "refit":
+    c["mode"] = g.choice(["fit", "fit", "partial", "partial_ridge", "refit", "refit_failed"])
+    if c["mode"] in ("refit", "refit_failed"):
         c["prior"] = {"X": [g.dyvec(d, a=3, k=8) for _ in range(5)], "Y": [g.dyvec(o, a=2, k=8) for _ in range(5)],
                       "ridge": g.choice([0.125, 7.0])}
     if c["mode"] == "partial_ridge":
         c["ridge0"] = g.choice([2.0 ** -20, 5.0, 0.0])
+    if c["mode"] == "refit_failed":
+        # the earlier fit fails in its final solve, with an error of one kind or another (a regularisation that is not a
+        # number; a warning of the solver turned into an error by the caller's warning filter): nothing of it may stay
+        c["fail_how"] = g.choice(["ridge_none", "ridge_str", "warning_as_error"])
+    if bias and nseq >= 2 and g.chance(0.25) and dtype.startswith("float"):
+        # a silent sequence: all retained inputs are exactly zero (the warm-up rows need not be). With a bias it still
+        # contributes its length and its targets to the sums
+        z = g.randint(0, nseq - 1)
+        for t in range(warm, lens[z]):
+            seqs[z]["X"][t] = [0.0] * d
+        c["silent_seq"] = z
     return c
 
 
@@ -101,10 +112,34 @@ def run_impl(c):
     Ys = [np.array(s["Y"], dtype=float).astype(dt if dt.kind == "f" else np.int64 if dt.kind in "iu" else dt)
           for s in c["seqs"]]
     mode = c.get("mode", "fit")
-    node = Ridge(ridge=c["ridge0"] if mode == "partial_ridge" else c["prior"]["ridge"] if mode == "refit" else c["ridge"],
+    node = Ridge(ridge=c["ridge0"] if mode == "partial_ridge" else c["prior"]["ridge"] if mode in ("refit", "refit_failed") else c["ridge"],
                  input_bias=c["bias"])
     if mode == "refit":
         node.fit(np.array(c["prior"]["X"], dtype=float), np.array(c["prior"]["Y"], dtype=float))
+        node.ridge = c["ridge"]
+    if mode == "refit_failed":
+        import warnings
+        PX, PY = np.array(c["prior"]["X"], dtype=float), np.array(c["prior"]["Y"], dtype=float)
+        failed = False
+        try:
+            if c["fail_how"] == "warning_as_error":
+                # two identical columns and a tiny lambda: scipy warns about the conditioning
+                PX = np.hstack([PX[:, :1]] * PX.shape[1]) * 1e6
+                node.ridge = 1e-30
+                with warnings.catch_warnings():
+                    warnings.simplefilter("error")
+                    node.fit(PX, PY)
+            else:
+                node.ridge = None if c["fail_how"] == "ridge_none" else "0.1"
+                node.fit(PX, PY)
+        except BaseException as e:  # noqa
+            if isinstance(e, (KeyboardInterrupt, SystemExit)):
+                raise
+            failed = True
+        c["_prior_failed"] = failed
+        if not failed:
+            # (the solver did not complain: the earlier fit completed, which is the plain refit case)
+            pass
         node.ridge = c["ridge"]
     if mode in ("partial", "partial_ridge"):
         for X, Y in zip(Xs, Ys):
@@ -155,6 +190,10 @@ def model_ops_case(c):
     elif mode == "partial_ridge":
         m["ridge0"] = q(c["ridge0"])
         m["ops"] = [{"op": "partial", "warmup": w, "seqs": [sq]} for sq in seqs] + [{"op": "ridge", "lam": q(c["ridge"])}, {"op": "fit"}]
+    elif mode == "refit_failed":
+        # (a fit that failed leaves a node without buffers: C11_fit_cleans; the life-cycle model starts there)
+        m["ridge0"] = q(c["prior"]["ridge"])
+        m["ops"] = [{"op": "ridge", "lam": q(c["ridge"])}, {"op": "fit_data", "warmup": w, "seqs": seqs}]
     else:
         m["ridge0"] = q(c["prior"]["ridge"])
         m["ops"] = [{"op": "fit_data", "warmup": 0, "seqs": [{"X": qmat(c["prior"]["X"]), "Y": qmat(c["prior"]["Y"])}]},
@@ -196,7 +235,8 @@ def check_cases(ctx, cases):
         ctx.count(c, nontrivial=nontriv, obligation=ob)
         for k in ("stream", "layout", "bias", "dtype", "warmup", "d", "o"):
             ctx.stat(f"{k}={c[k]}")
-        ctx.stat(f"mode={c.get('mode', 'fit')}")
+        ctx.stat(f"mode={c.get('mode', 'fit')}" + (f"/{c['fail_how']}" + ("" if c.get("_prior_failed") else " (did not fail)") if c.get("mode") == "refit_failed" else ""))
+        ctx.stat("silent sequence (zero retained inputs, bias on)" if c.get("silent_seq") is not None else "no silent sequence")
         ctx.stat("long sequence (> 5000 steps)" if c.get("long") else "short sequence")
         ctx.stat(f"nseq={len(c['lens'])}")
         if mo[0] != "ok":
